@@ -158,7 +158,7 @@ var specificCtx = map[string]bool{
 	"dotimes-result": true, "macrolet-tmpl": true, "tmpl": true, "export-form": true,
 	"quoted-designator": true, "unquote": true, "function-form": true, "tmpl-qualified": true,
 	"macrolet-tmpl-qualified": true, "qualified": true, "set!-target": true, "imported": true, "imported-other-file": true,
-	"ref-to-nested-def": true, "call-of-head-special-cased": true,
+	"ref-to-nested-def": true, "call-of-head-special-cased": true, "forward-call": true,
 }
 
 func refKey(kind string, o Occ) string {
